@@ -155,6 +155,7 @@ def initial_comp(name):
         "$hist": lambda: z3.Const("$hist@0", so.HistArr),
         "$G": lambda: z3.Const("$G@0", GHist),
         "$alloc": lambda: z3.Const("$alloc@0", I),
+        "$attrs": lambda: z3.Const("$attrs@0", so.DictArr),     # dynamic attributes of arbitrary objects: ref -> (name -> value | absent)
     }[name]()
 
 
